@@ -14,7 +14,7 @@ with=$(go test -count=1 $pkg 2>&1 | tail -1)
 git apply -R _seed/patch.diff   # undo only the source change; the untracked demo test stays
 without=$(go test -count=1 $pkg 2>&1 | tail -1)
 git apply _seed/patch.diff
-pinned=$(go build ./gameboy/cpu/ ./gameboy/memory/ ./gameboy/timer/ ./gameboy/ppu/ ./gameboy/oam/ ./gameboy/audio/ ./gameboy/controller/ ./gameboy/serial/ ./gameboy/interrupts/ 2>&1 | tail -1; mv "$demo" /tmp/_demo_hold.go; go test -count=1 ./gameboy/cpu/ ./gameboy/timer/ 2>&1 | tail -2 | tr '\n' ' '; mv /tmp/_demo_hold.go "$demo")
+pinned=$(go build ./gameboy/cpu/ ./gameboy/memory/ ./gameboy/timer/ ./gameboy/ppu/ ./gameboy/oam/ ./gameboy/audio/ ./gameboy/controller/ ./gameboy/serial/ ./gameboy/interrupts/ 2>&1 | tail -1; mv "$demo" /tmp/_demo_hold_$$.go; go test -count=1 ./gameboy/cpu/ ./gameboy/timer/ 2>&1 | tail -2 | tr '\n' ' '; mv /tmp/_demo_hold_$$.go "$demo")
 echo "demo=$demo | with change: $with | without: $without | pinned: $pinned"
 cd /verif
 res=$(tools/mutant.sh $S/patch.diff "$@")
